@@ -298,6 +298,71 @@ def check_options_untouched(ctx, db):
     ctx.check(all(re.match(r'^\(\(shape_tags && \(!shape_tags->has_value\(.+\)\)\) && cell\)$', c) for c in others) and len(others) == 2, 'R-SHAPE', 'read_gds/filter-uses', f.loc(), 'the filter is consulted only in the two ENDEL drop tests', 'conditions mentioning shape_tags: %s' % others)
 
 
+LENGTH_CALLEES = {'memcpy', 'memcmp', 'memmove', 'fwrite', 'fread', 'strncmp', 'strncpy', 'memchr'}
+
+
+def check_payload_strings(ctx, db):
+    """GDSII record payloads are length-delimited, not NUL-terminated (an even-length name has no padding byte, and
+    the shared record buffer keeps the bytes of earlier records): the payload pointer only reaches functions that
+    take an explicit length, unless the arm terminates the payload itself first."""
+    n = 0
+    for qn in ('gdstk::read_gds', 'gdstk::gds_info', 'gdstk::read_rawcells'):
+        f = db.fn(qn)
+        ctx.touch(f)
+        sv = next((v for v in f.walk() if v.k == 'VarDecl' and v.n == 'str' and 'char' in (v.t or '') and v.child('init') is not None and 'buffer' in v.child('init').text()), None)
+        if sv is None:
+            raise AnalysisBroken('%s: payload string alias `str` not found' % qn)
+        key = 'v%d:%s' % (sv.d, sv.n)
+        for c in f.walk():
+            if c.k not in ('CallExpr', 'CXXMemberCallExpr'):
+                continue
+            direct = [a for a in c.args if _strip_casts(a).k == 'DeclRefExpr' and lvalue_key(_strip_casts(a)) == key]
+            if not direct:
+                continue
+            n += 1
+            name = (c.callee or '').split('::')[-1]
+            if name in LENGTH_CALLEES:
+                ctx.ok('R-BOUND.cstring', '%s/%s@%s' % (qn.replace('gdstk::', ''), name, c.loc()), c.loc(), 'payload handed to %s with an explicit length' % name)
+                continue
+            arm = next((a for a in c.ancestors() if a.k in ('CaseStmt', 'DefaultStmt')), None)
+            scope = arm if arm is not None else f.body
+            term = [x for x in scope.walk() if is_assign(x) and x.id < c.id and _strip_casts(x.child('lhs')).k == 'ArraySubscriptExpr' and lvalue_key(_strip_casts(_strip_casts(x.child('lhs')).child('base') or _strip_casts(x.child('lhs')).c[0])) == key and x.child('rhs').cv == 0]
+            ctx.check(bool(term), 'R-BOUND.cstring', '%s/%s@%s' % (qn.replace('gdstk::', ''), name, c.loc()), c.loc(), 'the arm terminates the payload before handing it to %s' % name,
+                      'the record payload is passed to %s, which reads up to a NUL byte: an even-length name has none, so bytes left in the buffer by earlier records become part of the name' % name)
+    ctx.require('R-BOUND.cstring payload uses', n, 8)
+
+
+def check_record_buffers(ctx, db):
+    """every parser gives gdsii_read_record room for the longest legal record (65535 bytes; one more where the arm
+    appends a terminator), and announces exactly that capacity"""
+    n = 0
+    for f in db.functions:
+        if f.body is None or not f.relfile().startswith('src/'):
+            continue
+        for c in f.walk():
+            if c.k == 'CallExpr' and c.callee == 'gdstk::gdsii_read_record':
+                n += 1
+                ctx.touch(f)
+                b = _strip_casts(c.args[1])
+                cap = _strip_casts(c.args[2])
+                size = None
+                if b.k == 'DeclRefExpr':
+                    v = next((v for v in f.walk() if v.k == 'VarDecl' and 'v%d:%s' % (v.d, v.n) == lvalue_key(b)), None)
+                    m = re.search(r'\[(\d+)\]', (v.t or '')) if v is not None else None
+                    size = int(m.group(1)) if m else None
+                capv = None
+                if cap.k == 'DeclRefExpr':
+                    cv = next((v for v in f.walk() if v.k == 'VarDecl' and 'v%d:%s' % (v.d, v.n) == lvalue_key(cap)), None)
+                    defs = [x.child('rhs') for x in f.walk() if is_assign(x) and lvalue_key(x.child('lhs')) == lvalue_key(cap)]
+                    if cv is not None and cv.child('init') is not None:
+                        defs.append(cv.child('init'))
+                    vals = {d.cv for d in defs}
+                    capv = vals.pop() if len(vals) == 1 else None
+                ctx.check(size is not None and size >= 65536 and capv == size, 'R-CONST', '%s/record-buffer@%s' % (f.qn.replace('gdstk::', ''), c.loc()), c.loc(), 'the record buffer holds %s bytes (>= the longest record, 65535, plus a terminator) and that capacity is what gdsii_read_record is told' % size,
+                          'the record buffer has %s bytes and the announced capacity is %s: a legal record longer than the buffer (e.g. a long LIBNAME before UNITS) makes this parser fail where the others succeed' % (size, capv))
+    ctx.require('R-CONST record buffers', n, 5)
+
+
 def check_tag_filter(ctx, db):
     f = db.fn('gdstk::read_gds')
     sw = record_switch(f)
@@ -344,10 +409,12 @@ def run(ctx):
     check_tag_filter(ctx, db)
     check_timestamp_coverage(ctx, db)
     check_options_untouched(ctx, db)
+    check_payload_strings(ctx, db)
+    check_record_buffers(ctx, db)
 
 
 MANIFEST = dict(
-    text='Decides structural agreement between the sibling GDSII parsers/writers: element-opening and tag-carrying record tables of gds_info equal those of read_gds (extracted from both), with the same routing into shape/label tag sets; the UNITS formulas of gds_units, gds_info and read_gds normalise to the same expressions; Library::write_gds\'s header and trailer are clones of gdswriter_init / GdsWriter::close and both hand cells the same scaling; read_rawcells accounts every record of an open structure into the raw cell (offset = ftell - record_length) and RawCell::to_gds moves exactly size bytes; a raw cell clears its source pointer unconditionally after releasing its share; the timestamp constants (28 = 4 + 2*12, seek -24, 12 words, word order and biases) are paired and the BGNLIB/BGNSTR rewrites are clones; the polygon and path tag-filter blocks at ENDEL are clones with the confirmed condition and the filter parameter is never reassigned (an empty set filters everything); a timestamp rewrite run leaves the record loop only at ENDLIB or through an error exit (the only early success exit is the query mode) and rewrites every BGNSTR. Equality of loaded libraries or re-emitted bytes is not decided.',
+    text='Decides structural agreement between the sibling GDSII parsers/writers: element-opening and tag-carrying record tables of gds_info equal those of read_gds (extracted from both), with the same routing into shape/label tag sets; the UNITS formulas of gds_units, gds_info and read_gds normalise to the same expressions; Library::write_gds\'s header and trailer are clones of gdswriter_init / GdsWriter::close and both hand cells the same scaling; read_rawcells accounts every record of an open structure into the raw cell (offset = ftell - record_length) and RawCell::to_gds moves exactly size bytes; a raw cell clears its source pointer unconditionally after releasing its share; the timestamp constants (28 = 4 + 2*12, seek -24, 12 words, word order and biases) are paired and the BGNLIB/BGNSTR rewrites are clones; the polygon and path tag-filter blocks at ENDEL are clones with the confirmed condition and the filter parameter is never reassigned (an empty set filters everything); record payloads reach only length-taking functions unless the arm terminates them first, every parser offers gdsii_read_record a buffer for the longest legal record and announces exactly its capacity; a timestamp rewrite run leaves the record loop only at ENDLIB or through an error exit (the only early success exit is the query mode) and rewrites every BGNSTR. Equality of loaded libraries or re-emitted bytes is not decided.',
     note='Trusted: clang front end, gx, sa rules; tables are extracted from both sides (no frozen copy of either).',
     technique='sibling table extraction and comparison + clone families + paired-constant checks over typed ASTs',
     design='§4 C17')
